@@ -184,10 +184,17 @@ def std_gen(task, seed, maxlen=6):
     codes = [R[c] for c in task['roles']]
     cache = {}
 
+    wide = task['layout'] in ('wide', 'wide2')
+
     def gen(v, h):
         L = len(v)
         if L > maxlen and not (LONG <= L <= LONG + maxlen):
             return []
+        if wide:
+            # the widest mutating alphabet (C09's): every in-place method with in-range and edge arguments, so that the
+            # property's probes also start from states produced by pads, clips, replaces, appends, simplify ...
+            from .props import c09
+            return c09.mut_alphabet(v, seed)
         ops = cache.get(L)
         if ops is None:
             ops = gen_apply_remove(L, codes)
@@ -225,6 +232,10 @@ def std_pool(task, seed, acc=None):
         seed_hist = dup_hist(task['layout'], text, seed)
     elif task['layout'] in ('rs1', 'rs2'):
         seed_hist = restart_hist(task['layout'], text, seed)
+    elif task['layout'] == 'wide':
+        seed_hist = [['rainbow', text]]
+    elif task['layout'] == 'wide2':
+        seed_hist = [['plain', text], ['apply', roles(seed)['R'], 0, len(text), True], ['apply', roles(seed)['W'], 1, len(text), True]]
     else:
         seed_hist = [[task['layout'], text]]
     base_len = len(seed_hist)
